@@ -253,7 +253,7 @@ def c03(ctx):
 
 def c17(ctx):
     modes = [("conc2", 0)] if ctx.quick() else [("conc2", 0), ("conc3", 0)]
-    return _writers(ctx, "C17", modes, 6000 if ctx.quick() else 80000, real_limit=100 if ctx.quick() else 3000)
+    return _writers(ctx, "C17", modes, 6000 if ctx.quick() else 80000, real_limit=100 if ctx.quick() else 1000)
 
 
 # ---------------------------------------------------------------------------
